@@ -485,13 +485,16 @@ def check_calc_cA(led):
     led.function(func)
     it, calls = mk()
     geoms = {k: v for k, v in GEOMS.items() if k != 'kpanel'}
-    for geom, fin in itertools.product(geoms, (True, False)):
-        tag = '%s,finalize=%s' % (geom, fin)
+    for geom, fin, stored in itertools.product(geoms, (True, False), (False, True)):
+        tag = '%s,finalize=%s%s' % (geom, fin, ',the panel stores another coefficient' if stored else '')
         holder = {}
 
         def run():
             del calls[:]
             p, kw, want, g = build(it, geom, 'uniform', 'none', {})
+            if stored:
+                # the attribute is what calc_kA derives / a bay copies into its panel; the damping matrix is asked for the ARGUMENT
+                p.attrs['aeromu'] = real('aeromu_stored')
             holder.update(kw=kw, want=want, g=g)
             it.call(it.getattr(p, 'calc_k0'), [], dict(silent=True))
             it.call(it.getattr(p, 'calc_cA'), [real('aeromu')], dict(silent=True, finalize=fin))
@@ -524,7 +527,9 @@ def check_calc_kT_fint(led):
     """Panel.calc_kT = fkL_num(NLgeom=1) + fkG_num(NLgeom=1) with the caller's state; Panel.calc_fint passes state, laminate, offsets"""
     from ..kernel import InArray, user_array
     it, calls = mk()
-    for geom, szform, opts in itertools.product(('plate', 'cpanel'), ('default', 'given'), ('defaults', 'table+grid')):
+    for geom, szform, opts in itertools.product(('plate', 'cpanel'), ('default', 'given'), ('defaults', 'table+grid', 'load level given')):
+        if opts == 'load level given' and szform == 'given':
+            continue
         holder = {}
         for method in ('calc_kT', 'calc_fint'):
             func = PF + method
@@ -544,6 +549,10 @@ def check_calc_kT_fint(led):
                     Fn = InArray('Fnxny_user', shape=(nxq, nyq, 6, 6))
                     extra = dict(Fnxny=Fn, nx=nxq, ny=nyq)
                     exp = dict(F=Fn, nx=nxq, ny=nyq)
+                if opts == 'load level given':
+                    # the way Analysis.static calls it: the load level is passed along; a panel has no prescribed amplitudes, so the
+                    # internal force and the tangent at the state c do not depend on it
+                    extra = dict(inc=real('inc_level'))
                 holder.update(kw=kw, want=want, g=g, sw=sw, c=c, exp=exp)
                 if method == 'calc_kT':
                     return it.call(it.getattr(p, 'calc_kT'), [], dict(skw, c=c, silent=True, **extra))
@@ -576,7 +585,7 @@ def check_calc_kT_fint(led):
                         if panelctx.vkey(a_.get('NLgeom')) != panelctx.vkey(1):
                             probs.append('%s called with NLgeom=%s, expected 1' % (x.f['fn'], pycheck.describe(a_.get('NLgeom'))))
                         if panelctx.vkey(a_.get('Finput')) != panelctx.vkey(exp['F']):
-                            probs.append('%s: laminate is %s, expected %s' % (x.f['fn'], pycheck.describe(a_.get('Finput')), 'the table of the call' if opts != 'defaults' else 'the ABD of the panel definition'))
+                            probs.append('%s: laminate is %s, expected %s' % (x.f['fn'], pycheck.describe(a_.get('Finput')), 'the table of the call' if opts == 'table+grid' else 'the ABD of the panel definition'))
                         for k2 in ('size', 'row0', 'col0'):
                             if panelctx.vkey(a_.get(k2)) != panelctx.vkey(sw[k2]):
                                 probs.append('%s: %s = %s, expected %s' % (x.f['fn'], k2, pycheck.describe(a_.get(k2)), pycheck.describe(sw[k2])))
